@@ -186,7 +186,12 @@ func randBelow(t *rapid.T, label string, n *big.Int) *big.Int {
 func genScalar(cv *swCurve, t *rapid.T, label string) Sc {
 	r := cv.R
 	one := big.NewInt(1)
-	kinds := []string{"rand", "rand", "0", "1", "2", "3", "r-1", "r-2", "r", "sum=r", "sum=r+1", "sum>r", "raw>r", "raw=r+1", "2^k", "half", "sum=0"}
+	kinds := []string{"rand", "rand", "0", "1", "2", "3", "r-1", "r-2", "r", "sum=r", "sum=r+1", "sum>r", "2^k", "half", "sum=0"}
+	if cv.Name != "bls12377" {
+		// raw (non-canonical) limb witnesses: only where the scalar stays an emulated element;
+		// the 2-chain wrapper packs the limbs into one native variable (no documented support)
+		kinds = append(kinds, "raw>r", "raw=r+1")
+	}
 	if cv.Lambda != nil {
 		kinds = append(kinds, "lambda", "lambda")
 	}
